@@ -177,6 +177,22 @@ func runC11(r *core.Run) {
 			r.Eventf("bootstrap order=%d lost-write #%d -> %s, durable: %s", order, j, errClass(err, false), writeNames(lb.Disk.Log))
 			checkPrefixes(r, lpre, lb.Disk.Log, fmt.Sprintf("bootstrap/order=%d/lost-write@%d", order, j), hist)
 		}
+		// ... and with one of its objects persistently unwritable (every attempt to store it fails)
+		seenObj := map[string]bool{}
+		for _, w := range b.Disk.Log {
+			if w.Op != "put" || seenObj[w.Object] {
+				continue
+			}
+			seenObj[w.Object] = true
+			pb := NewAuthority(r, cfg, seams.NewPlanNone(r))
+			pb.Order = b.Order
+			pb.Keygen.Base = b.Keygen.Base
+			pb.Disk.FailObject = w.Object
+			ppre := pb.Disk.Snapshot()
+			err, _ := pb.Bootstrap(BootArgs{SignCN: bootCN})
+			r.Eventf("bootstrap order=%d unwritable %s -> %s, durable: %s", order, w.Object, errClass(err, false), writeNames(pb.Disk.Log))
+			checkPrefixes(r, ppre, pb.Disk.Log, fmt.Sprintf("bootstrap/order=%d/unwritable=%s", order, objKind(w.Object)), hist)
+		}
 		if order == keep {
 			a = b
 		}
@@ -229,6 +245,19 @@ func runC11(r *core.Run) {
 			err4, _ := lw.Rotate(RotArgs{SerialOverride: int64(900 + i), Flags: Flags{Overwrite: r.Bool("next-overwrite")}})
 			r.Eventf("rotation after the lost write -> %s, writes: %s", errClass(err4, false), writeNames(lw.Disk.Log[start4:]))
 			checkPrefixes(r, pre4, lw.Disk.Log[start4:], fmt.Sprintf("rotate/after-lost-write@%d/long-lived=%v", j, lw.Persist), hist)
+		}
+		// The same rotation with one of its objects persistently unwritable.
+		if r.Chance(40, "unwritable-object?") {
+			w := writes[r.Intn(len(writes), "unwritable-index")]
+			pw := a.Clone()
+			pw.Now = a.Now
+			pw.Disk = pre.Snapshot()
+			pw.Disk.FailObject = w.Object
+			ra6 := ra
+			ra6.Overwrite = true
+			err, _ := pw.Rotate(ra6)
+			r.Eventf("rotate with %s unwritable -> %s, durable writes: %s", w.Object, errClass(err, false), writeNames(pw.Disk.Log))
+			checkPrefixes(r, pre, pw.Disk.Log, fmt.Sprintf("rotate/unwritable=%s", objKind(w.Object)), hist)
 		}
 		// The same rotation under --keep_going (drawn --overwrite) with ONE call to key manager, signer
 		// or certificate authority failing: whatever the tolerant mode then writes, every prefix of
@@ -313,4 +342,15 @@ func runC11(r *core.Run) {
 		r.Probe("bootstrap-after-wipeout")
 	}
 	r.Sample = map[string]any{"config": cfg.String(), "history": hist, "writes": sample}
+}
+
+// objKind names an object by its role, for evaluation keys.
+func objKind(name string) string {
+	switch {
+	case name == gcsca.ManifestObjectName:
+		return "manifest"
+	case strings.HasSuffix(name, "root.crt"):
+		return "root.crt"
+	}
+	return "certificate"
 }
